@@ -36,6 +36,7 @@ import (
 	"time"
 
 	"rivaas.dev/app"
+	"rivaas.dev/logging"
 	"rivaas.dev/metrics"
 	"rivaas.dev/tracing"
 	"verif/harness/hx"
@@ -230,6 +231,26 @@ type reqState struct {
 
 type roundKey struct{}
 
+// lockedBuf is the io.Writer the application's logger writes to.
+type lockedBuf struct {
+	mu sync.Mutex
+	b  bytes.Buffer
+}
+
+func (l *lockedBuf) Write(p []byte) (int, error) {
+	l.mu.Lock()
+	defer l.mu.Unlock()
+	return l.b.Write(p)
+}
+
+func (l *lockedBuf) contains(s string) bool {
+	l.mu.Lock()
+	defer l.mu.Unlock()
+	return bytes.Contains(l.b.Bytes(), []byte(s))
+}
+
+const startupMarker = "verif-c09-startup-marker"
+
 type runner struct {
 	id      string
 	sc      *Scenario
@@ -248,7 +269,7 @@ type runner struct {
 	startDone chan struct{} // closed when Start has returned (or panicked) and `r` is logged
 	startGID  atomic.Int64
 	res       int
-	fin       [2]bool
+	fin       [3]bool
 	collector *http.Server
 	colAddr   string
 	t0        time.Time
@@ -265,6 +286,8 @@ type runner struct {
 	pairGID   atomic.Int64
 	pairIn    atomic.Bool
 	pairDone  chan struct{}
+
+	logBuf lockedBuf // what the application's logger has written
 
 	discard string
 	notes   []string
@@ -738,7 +761,9 @@ func (r *runner) build() error {
 		app.WithPort(r.appPort),
 		app.WithServer(app.WithShutdownTimeout(time.Second)),
 	}
-	var obs []app.ObservabilityOption
+	// the logger writes to a buffer of the harness: app.New puts it into startup-buffering mode, and
+	// whether what is logged during start-up ever comes out is part of the observation
+	obs := []app.ObservabilityOption{app.WithLogging(logging.WithJSONHandler(), logging.WithOutput(&r.logBuf))}
 	if sc.Metrics {
 		obs = append(obs, app.WithMetrics(metrics.WithPrometheus(fmt.Sprintf(":%d", r.metPort), "/metrics"), metrics.WithStrictPort()))
 	}
@@ -746,9 +771,7 @@ func (r *runner) build() error {
 		// traces go to a collector of our own: an export request arriving there *is* the flush
 		obs = append(obs, app.WithTracing(tracing.WithOTLPHTTP("http://"+r.colAddr)))
 	}
-	if len(obs) > 0 {
-		opts = append(opts, app.WithObservability(obs...))
-	}
+	opts = append(opts, app.WithObservability(obs...))
 	a, err := app.New(opts...)
 	if err != nil {
 		return err
@@ -777,8 +800,9 @@ func (r *runner) build() error {
 
 	// instrumentation hook (not logged): wait until the metrics server accepts, so that "still open"
 	// and "closed" are both decidable with a single connect attempt later on
-	if sc.Metrics || sc.Tracing {
+	{
 		a.OnStart(func(ctx context.Context) error {
+			a.BaseLogger().Info(startupMarker)
 			r.span("boot")
 			dl := time.Now().Add(5 * time.Second)
 			for sc.Metrics && time.Now().Before(dl) {
@@ -874,7 +898,7 @@ func (r *runner) build() error {
 type obsT struct {
 	Log     []string
 	Res     int
-	Fin     [2]bool
+	Fin     [3]bool
 	Reqs    []int // 1 complete, 0 not, 2 n/a (never released before Start returned)
 	Rounds  []int
 	Discard string
@@ -946,7 +970,7 @@ func (r *runner) run() obsT {
 			if blocker != nil {
 				blocker.Close()
 			}
-			r.fin = [2]bool{r.probeApp(), r.probeMetrics()}
+			r.fin = [3]bool{r.probeApp(), r.probeMetrics(), !r.logBuf.contains(startupMarker)}
 			if sc.Tracing && time.Since(r.t0) > 4500*time.Millisecond {
 				r.discard = "case took longer than the tracer's periodic export interval"
 			}
@@ -1184,7 +1208,7 @@ func emit(id string, sc *Scenario, o obsT, st *hx.Stats) string {
 		l.Tok(e)
 	}
 	l.Tok("RES").Nat(o.Res)
-	l.Tok("FIN").Bool(o.Fin[0]).Bool(o.Fin[1])
+	l.Tok("FIN").Bool(o.Fin[0]).Bool(o.Fin[1]).Bool(o.Fin[2])
 	l.Tok("RQ").Nat(len(o.Reqs))
 	for _, x := range o.Reqs {
 		l.Nat(x)
